@@ -334,14 +334,20 @@ theorem range_progression (E : Env) (hz : E.stepIsZeroSingleton = false) (a b s 
     rangeImpl E [numVal a, numVal b, numVal s] retTy = .ok (mkList .number (vals.map Payload.n)) :=
   rangeImpl_three_ok E hz a b s retTy hf hdir vals hp hlen
 
-/-- **…and fails outside it**: when 1024 terms do not reach the end, and when the
-end lies on the wrong side of the start for the direction of the step. -/
-theorem range_fails_outside_domain (E : Env) (hz : E.stepIsZeroSingleton = false) (a b s : Num) (retTy : Ty) :
+/-- **…and fails outside it**: when 1024 terms do not reach the end, when the end
+lies on the wrong side of the start for the direction of the step, and when the
+step is infinite. -/
+theorem range_fails_outside_domain (E : Env) (hz : E.stepIsZeroSingleton = false) (a b s : Num) (retTy : Ty)
+    (va vb : Value) (n : Bool) :
     (isFin s = true →
       (∀ k, k ≤ 1024 → reached (stepDown s) b (Spec.iterNth (nextNum s) k a) = false) →
       Fails (rangeImpl E [numVal a, numVal b, numVal s] retTy)) ∧
-    (dirOk (stepDown s) a b = false → Fails (rangeImpl E [numVal a, numVal b, numVal s] retTy)) :=
-  ⟨fun hf h => rangeImpl_three_limit E hz a b s retTy hf h, fun h => rangeImpl_three_dir E hz a b s retTy h⟩
+    (isFin s = true → dirOk (stepDown s) a b = false →
+      Fails (rangeImpl E [numVal a, numVal b, numVal s] retTy)) ∧
+    Fails (rangeImpl E [va, vb, numVal (.inf n)] retTy) :=
+  ⟨fun hf h => rangeImpl_three_limit E hz a b s retTy hf h,
+   fun hf h => rangeImpl_three_dir E hz a b s retTy hf h,
+   rangeImpl_three_inf E va vb n retTy⟩
 
 /-- one and two arguments are the three-argument form with `start = 0` and step
 `-1` when the end is below the start, `1` otherwise; no or more than three
